@@ -19,7 +19,13 @@
 //     nonce check in abci/transaction.go processTx);
 //   - nonceWriters: every syntactic write (`++`, `--`, `=`, `+=`, ...) to a selector ending in
 //     `.General.Nonce` in non-test files (file, enclosing function, statement text);
-//   - systemMethods: the keys of consensus/api SystemMethods.
+//   - systemMethods: the keys of consensus/api SystemMethods;
+//   - accountKeyWrites: every `X.Insert(ctx, accountKeyFmt.Encode(...), ...)` / `X.Remove(ctx, accountKeyFmt.Encode(...))`
+//     (file, function, operation): the raw writers of the staking account key space;
+//   - accountWriters: every call `X.SetAccount(ctx, addr, acct)` (and any call of a method whose name starts
+//     with Remove/Delete and contains "Account", except the allowance/hook helpers that go through
+//     SetAccount) with (file, function, address argument, account argument, provenance of the account
+//     argument inside the function: the right-hand sides that define it, "param", or "?").
 package main
 
 import (
@@ -182,6 +188,85 @@ func (g *sigGen) text(n ast.Node) string {
 	return strings.Join(strings.Fields(b.String()), " ")
 }
 
+// provenance describes where the account value passed to SetAccount comes from inside function fd:
+// the right-hand sides of every assignment/definition of the identifier before the call (source order),
+// "param" for a parameter or receiver, "range" for a range variable, the expression text itself if it is
+// not a plain identifier, "?" if no definition was found.
+func (g *sigGen) provenance(fd *ast.FuncDecl, arg ast.Expr, callPos token.Pos) string {
+	id, ok := arg.(*ast.Ident)
+	if !ok {
+		return "expr:" + g.text(arg)
+	}
+	var srcs []string
+	add := func(s string) {
+		for _, x := range srcs {
+			if x == s {
+				return
+			}
+		}
+		srcs = append(srcs, s)
+	}
+	fields := []*ast.FieldList{fd.Type.Params, fd.Recv}
+	for _, fl := range fields {
+		if fl == nil {
+			continue
+		}
+		for _, f := range fl.List {
+			for _, n := range f.Names {
+				if n.Name == id.Name {
+					add("param")
+				}
+			}
+		}
+	}
+	ast.Inspect(fd.Body, func(n ast.Node) bool {
+		if n == nil || n.Pos() >= callPos {
+			return n == nil || n.Pos() < callPos
+		}
+		switch st := n.(type) {
+		case *ast.AssignStmt:
+			for i, l := range st.Lhs {
+				if li, ok := l.(*ast.Ident); ok && li.Name == id.Name {
+					if len(st.Rhs) == len(st.Lhs) {
+						add(g.text(st.Rhs[i]))
+					} else if len(st.Rhs) == 1 {
+						add(g.text(st.Rhs[0]))
+					}
+				}
+			}
+		case *ast.RangeStmt:
+			for _, e := range []ast.Expr{st.Key, st.Value} {
+				if li, ok := e.(*ast.Ident); ok && li.Name == id.Name {
+					add("range " + g.text(st.X))
+				}
+			}
+		case *ast.ValueSpec:
+			for i, nme := range st.Names {
+				if nme.Name == id.Name {
+					if i < len(st.Values) {
+						add(g.text(st.Values[i]))
+					} else {
+						add("var " + g.text(st.Type))
+					}
+				}
+			}
+		}
+		return true
+	})
+	if len(srcs) == 0 {
+		return "?"
+	}
+	return strings.Join(srcs, " | ")
+}
+
+// cut shortens long expression texts (composite literals) so that the pinned expectation stays readable.
+func cut(s string) string {
+	if len(s) > 72 {
+		return s[:69] + "..."
+	}
+	return s
+}
+
 // isSigFunc reports whether call.Fun denotes function `name` of the signature package.
 func isSigFunc(fun ast.Expr, imps map[string]string, inSigPkg bool, name string) bool {
 	switch f := fun.(type) {
@@ -225,6 +310,8 @@ func genSigContexts(repo, out string, _ []string) (err error) {
 		suffixArgs   [][2]string
 		mmImpls      []string
 		nonceWriters [][3]string
+		keyWrites    [][3]string
+		acctWriters  [][5]string
 		sysMethods   []string
 		sep          string
 		sepFound     bool
@@ -279,6 +366,11 @@ func genSigContexts(repo, out string, _ []string) (err error) {
 							s2, ok := s.X.(*ast.SelectorExpr)
 							return ok && s2.Sel.Name == "General"
 						}
+						// replacing the whole General sub-struct overwrites the nonce too
+						isGeneral := func(e ast.Expr) bool {
+							s, ok := e.(*ast.SelectorExpr)
+							return ok && s.Sel.Name == "General"
+						}
 						switch st := n.(type) {
 						case *ast.IncDecStmt:
 							if isNonce(st.X) {
@@ -286,9 +378,33 @@ func genSigContexts(repo, out string, _ []string) (err error) {
 							}
 						case *ast.AssignStmt:
 							for _, l := range st.Lhs {
-								if isNonce(l) {
+								if isNonce(l) || isGeneral(l) {
 									nonceWriters = append(nonceWriters, [3]string{rel, fn, g.text(st)})
 								}
+							}
+						case *ast.CallExpr:
+							sel, ok := st.Fun.(*ast.SelectorExpr)
+							if !ok {
+								return true
+							}
+							name := sel.Sel.Name
+							// raw writes of the account key space
+							if (name == "Insert" || name == "Remove") && len(st.Args) >= 2 {
+								if kc, ok := st.Args[1].(*ast.CallExpr); ok {
+									if ks, ok := kc.Fun.(*ast.SelectorExpr); ok && ks.Sel.Name == "Encode" {
+										if kid, ok := ks.X.(*ast.Ident); ok && kid.Name == "accountKeyFmt" {
+											keyWrites = append(keyWrites, [3]string{rel, fn, name})
+										}
+									}
+								}
+							}
+							isRemoval := (strings.HasPrefix(name, "Remove") || strings.HasPrefix(name, "Delete")) &&
+								strings.Contains(name, "Account")
+							if name == "SetAccount" && len(st.Args) == 3 {
+								acctWriters = append(acctWriters, [5]string{rel, fn, cut(g.text(st.Args[1])), cut(g.text(st.Args[2])),
+									cut(g.provenance(dd, st.Args[2], st.Pos()))})
+							} else if isRemoval {
+								acctWriters = append(acctWriters, [5]string{rel, fn, cut(g.text(st)), "-", "removal"})
 							}
 						}
 						return true
@@ -447,6 +563,10 @@ func genSigContexts(repo, out string, _ []string) (err error) {
 		return strings.Join(nonceWriters[i][:], "|") < strings.Join(nonceWriters[j][:], "|")
 	})
 	sort.Strings(sysMethods)
+	sort.Slice(keyWrites, func(i, j int) bool { return strings.Join(keyWrites[i][:], "|") < strings.Join(keyWrites[j][:], "|") })
+	sort.SliceStable(acctWriters, func(i, j int) bool {
+		return strings.Join(acctWriters[i][:3], "|") < strings.Join(acctWriters[j][:3], "|")
+	})
 
 	var b strings.Builder
 	b.WriteString("/- GENERATED by /verif/tools/gen sigcontexts from the working tree of /repo. Do not edit. -/\n")
@@ -501,6 +621,23 @@ func genSigContexts(repo, out string, _ []string) (err error) {
 			b.WriteString(",")
 		}
 		fmt.Fprintf(&b, "\n  (%s, %s, %s)", lstr(p[0]), lstr(p[1]), lstr(p[2]))
+	}
+	b.WriteString("]\n\n")
+	fmt.Fprintf(&b, "def accountKeyWrites : List (String × String × String) := [")
+	for i, p := range keyWrites {
+		if i > 0 {
+			b.WriteString(",")
+		}
+		fmt.Fprintf(&b, "\n  (%s, %s, %s)", lstr(p[0]), lstr(p[1]), lstr(p[2]))
+	}
+	b.WriteString("]\n\n")
+	b.WriteString("/-- (file, function, address argument, account argument, provenance of the account argument). -/\n")
+	fmt.Fprintf(&b, "def accountWriters : List (String × String × String × String × String) := [")
+	for i, p := range acctWriters {
+		if i > 0 {
+			b.WriteString(",")
+		}
+		fmt.Fprintf(&b, "\n  (%s, %s, %s, %s, %s)", lstr(p[0]), lstr(p[1]), lstr(p[2]), lstr(p[3]), lstr(p[4]))
 	}
 	b.WriteString("]\n\nend Generated.SigContexts\n")
 	return os.WriteFile(out, []byte(b.String()), 0o644)
